@@ -256,4 +256,13 @@ Section U.
     apply bitboards_eq; [apply undo_do_piece_inv; assumption|exact Hp|].
     unfold obs in Hobs. injection Hobs as _ _ _ Eb _ _ _ _. exact Eb.
   Qed.
+  (* ... and with it the whole key invariant: after a take-back the key is again the scratch key and the closed function of the position *)
+  Theorem undo_do_key_inv s m : rep_ok s -> key_inv zt s -> pseudo_legal (rep_abs s) m = true ->
+    key_inv zt (undo_move zt (fst (do_move zt s (enc m))) (enc m) (snd (do_move zt s (enc m)))).
+  Proof.
+    intros Hok Hki H. destruct (Hki) as [Hp [Hke [Hkc Hcol]]].
+    assert (Hk : key_ok zt s) by (split; [exact Hkc|exact Hke]).
+    pose proof (undo_do_legal zt s m Hok Hk H) as Hobs. unfold obs in Hobs. injection Hobs as Es _ _ _ Ec Ee Ekey _.
+    split; [apply undo_do_piece_inv; assumption|]. unfold scalar_inv. rewrite Ekey, Ee, Ec, Es. split; [exact Hke|split; [exact Hkc|exact Hcol]].
+  Qed.
 End U.
